@@ -800,7 +800,18 @@ func init() {
 
 	// ---- context
 	models["(context.Context).Err"] = func(u *Unit, st *State, x *ast.CallExpr, recv *Val, fn *types.Func) *Val {
-		return u.freshVal(st, u.typeOf(x), "ctxerr")
+		// the context package's contract: nil while not done, then Canceled or DeadlineExceeded
+		u.trusted["model: (context.Context).Err returns nil, context.Canceled or context.DeadlineExceeded"] = true
+		v := u.freshVal(st, u.typeOf(x), "ctxerr")
+		c1 := u.d.constant("sentinel!context.Canceled", SInt)
+		c2 := u.d.constant("sentinel!context.DeadlineExceeded", SInt)
+		for _, c := range []string{c1, c2} {
+			u.sentinels[c] = true
+			u.d.axiom(app(">", c, "0"))
+			u.d.axiom(app("<=", c, "|wm@0|"))
+		}
+		st.assumeFact(tOr(tEq(v.S, "0"), tEq(v.S, c1), tEq(v.S, c2)))
+		return v
 	}
 
 	// ---- xsync.Map
